@@ -10,6 +10,8 @@
 package main
 
 import (
+	"bytes"
+	"os/exec"
 	"bufio"
 	"encoding/hex"
 	"encoding/json"
@@ -67,7 +69,142 @@ type out struct {
 	samples    []string
 	distinct   map[string]struct{}
 	nontrivial int
+	quiet      bool      // a scratch sink used by the concurrent stage: nothing is written
+	conc       []concRec // sample of the cases of this run for the concurrent stage
 }
+
+// concRec: one executed case and what the implementation answered when it ran alone
+type concRec struct {
+	cmd    int
+	fields []string
+	obs    []int
+}
+
+// concurrency-safe commands: they touch nothing but the objects they create themselves
+var concCmds = map[int]bool{101: true, 201: true, 202: true, 301: true, 401: true, 601: true, 602: true, 603: true, 701: true,
+	1901: true, 1902: true, 1903: true, 1904: true}
+
+// concurrentStage re-executes a sample of this run's cases in a FRESH process (so that whatever the library
+// initialises or caches on first use is cold again) from 16 goroutines at once, every goroutine the whole
+// sample in the same order, each case on objects of its own: what the library answers for an input must not
+// depend on what other goroutines are doing with other objects (no hidden shared state).  Compared with the
+// answer the same case gave when it ran alone in this process.
+func (o *out) concurrentStage() {
+	if len(o.conc) == 0 || o.quiet {
+		return
+	}
+	path := filepath.Join(o.dir, "conc.txt")
+	var sb strings.Builder
+	for _, c := range o.conc {
+		sb.WriteString(strconv.Itoa(c.cmd) + " " + strings.Join(c.fields, " ") + "\t" + fNums(c.obs...) + "\n")
+	}
+	must(os.WriteFile(path, []byte(sb.String()), 0o644))
+	cmd := exec.Command(os.Args[0], "concstage", "quick", "0", filepath.Join(o.dir, "concstage"), path)
+	var outb, errb bytes.Buffer
+	cmd.Stdout, cmd.Stderr = &outb, &errb
+	done := make(chan error, 1)
+	must(cmd.Start())
+	go func() { done <- cmd.Wait() }()
+	var werr error
+	select {
+	case werr = <-done:
+	case <-time.After(300 * time.Second):
+		_ = cmd.Process.Kill()
+		<-done
+		o.fail("concurrent-stage-hangs", fmt.Sprintf("x %d cases from 16 goroutines: no result in 300 s", len(o.conc)))
+		return
+	}
+	ans := outb.String()
+	if werr != nil || !strings.Contains(ans, "concstage-done") {
+		msg := errb.String()
+		if len(msg) > 400 {
+			msg = msg[:400]
+		}
+		o.fail("concurrent-stage-crash", fmt.Sprintf("x %d cases of this run executed from 16 goroutines in a fresh process: %v: %s", len(o.conc), werr, strings.ReplaceAll(msg, "\n", " | ")))
+		return
+	}
+	n := 0
+	for _, l := range strings.Split(ans, "\n") {
+		if strings.HasPrefix(l, "differs ") && n < 20 {
+			o.fail("concurrent-result-differs", strings.TrimPrefix(l, "differs "))
+			n++
+		}
+	}
+	o.countN("concurrent-stage-executions", 3*16*len(o.conc))
+}
+
+// runConcStage: child side of concurrentStage; args[0] is the sample file
+func runConcStage(o *out, _ bool, _ *rng, args []string) map[string]interface{} {
+	data, err := os.ReadFile(args[0])
+	must(err)
+	type rec struct {
+		line string
+		cmd  int
+		fs   [][]int
+		want string
+	}
+	var recs []rec
+	for _, l := range strings.Split(string(data), "\n") {
+		parts := strings.SplitN(l, "\t", 2)
+		if len(parts) != 2 {
+			continue
+		}
+		cmd, fs, _ := parseCase(parts[0])
+		recs = append(recs, rec{parts[0], cmd, fs, fmt.Sprint(parseField(parts[1]))})
+	}
+	// every case is executed by 16 goroutines released at the same instant (three rounds), so that they are
+	// in the same code path of the library at the same time
+	const workers = 16
+	var mu sync.Mutex
+	bad := map[int]bool{}
+	qs := make([]*out, workers)
+	for w := range qs {
+		qs[w] = &out{quiet: true, stats: map[string]int{}, distinct: map[string]struct{}{}}
+	}
+	for round := 0; round < 3; round++ {
+		for i, c := range recs {
+			var wg sync.WaitGroup
+			start := make(chan struct{})
+			for w := 0; w < workers; w++ {
+				wg.Add(1)
+				go func(w int) {
+					defer wg.Done()
+					// round 0: everybody the same case (first-use state, caches); later rounds: neighbours in
+					// the sample, i.e. mostly the same operation on DIFFERENT data (shared scratch memory)
+					j, c := i, c
+					if round > 0 {
+						j = (i + w*round) % len(recs)
+						c = recs[j]
+					}
+					fs := make([][]int, len(c.fs))
+					for k := range c.fs {
+						fs[k] = append([]int(nil), c.fs[k]...)
+					}
+					<-start
+					var got []int
+					pan, _ := guarded(func() { got = cmds[c.cmd](qs[w], fs) })
+					if pan || fmt.Sprint(got) != c.want {
+						mu.Lock()
+						bad[j] = true
+						mu.Unlock()
+					}
+				}(w)
+			}
+			close(start)
+			wg.Wait()
+		}
+	}
+	for i := range recs {
+		if bad[i] {
+			fmt.Println("differs " + recs[i].line)
+		}
+	}
+	fmt.Println("concstage-done")
+	os.Exit(0)
+	return nil
+}
+
+func init() { props["concstage"] = runConcStage }
 
 func newOut(dir string) *out {
 	wdOnce.Do(func() { go watchdog() }) // started before any goroutine counting
@@ -120,6 +257,14 @@ func (o *out) emit(cmd int, fields []string, obs []int, nontrivial bool) {
 		sb.WriteString(f)
 	}
 	line := sb.String()
+	if concCmds[cmd] && len(line) < 20000 {
+		rec := concRec{cmd, append([]string(nil), fields...), append([]int(nil), obs...)}
+		if len(o.conc) < 1500 {
+			o.conc = append(o.conc, rec)
+		} else if k := int(hash64(line) % uint64(o.n+1)); k < len(o.conc) {
+			o.conc[k] = rec // reservoir: every case of the run has the same chance of being in the sample
+		}
+	}
 	o.cases.WriteString(line)
 	o.cases.WriteByte('\n')
 	for i, x := range obs {
@@ -170,6 +315,9 @@ func (o *out) failFor(prop, kind, detail string) {
 
 // fail records a monitor / oracle failure: kind is a short class, detail is a replayable description.
 func (o *out) fail(kind, detail string) {
+	if o.quiet {
+		return
+	}
 	o.nfail++
 	fmt.Fprintf(o.monitor, "%s\t%s\n", kind, detail)
 }
@@ -218,6 +366,7 @@ func main() {
 		os.Exit(2)
 	}
 	extra := f(o, tier == "thorough", newRng(seed), os.Args[5:])
+	o.concurrentStage()
 	o.close(extra)
 }
 
